@@ -199,8 +199,9 @@ type Origins struct {
 	// cutEdges: CFG edges assumed not taken (a path condition); reaching stores and phis ignore them.
 	cutEdges map[Edge]bool
 
-	idxMapMemo map[*ssa.Lookup]*Ex
-	idxMapElem map[*ssa.Lookup]bool // the index map stores the elements themselves
+	idxMapMemo  map[*ssa.Lookup]*Ex
+	idxMapElem  map[*ssa.Lookup]bool   // the index map stores the elements themselves
+	idxMapField map[*ssa.Lookup]string // ... or one field of each element (m[key(x)] = x.F)
 }
 
 // WithCut returns a fresh context of the same function and calling context in which the given edges are
@@ -493,7 +494,11 @@ func (o *Origins) extract(x *ssa.Extract) *Ex {
 		if x.Index == 0 {
 			if e := o.indexMapSearch(t); e != nil {
 				if o.idxMapElem[t] {
-					return mk("index", "", e.Args[0], e) // the matching element itself
+					el := mk("index", "", e.Args[0], e) // the matching element itself
+					if f := o.idxMapField[t]; f != "" {
+						return project(el, f) // the stored field of the matching element
+					}
+					return el
 				}
 				return e
 			}
@@ -1943,7 +1948,20 @@ func (o *Origins) indexMapSearch(lk *ssa.Lookup) *Ex {
 	if l == nil {
 		// the element itself is stored: m[key(x)] = x for x ranging over the list
 		l = ctx.Loops.InnermostContaining(upd.Block())
-		if l == nil || l.RangeOf == nil || ctx.Of(upd.Value).String() != "elem("+ctx.Of(l.RangeOf).String()+")" {
+		if l == nil || l.RangeOf == nil {
+			return nil
+		}
+		el := "elem(" + ctx.Of(l.RangeOf).String() + ")"
+		uv := ctx.Of(upd.Value)
+		switch {
+		case uv.String() == el:
+		case uv.K == "field" && len(uv.Args) == 1 && uv.Args[0].String() == el:
+			// one field of the element is stored: m[key(x)] = x.F
+			if o.idxMapField == nil {
+				o.idxMapField = map[*ssa.Lookup]string{}
+			}
+			o.idxMapField[lk] = uv.S
+		default:
 			return nil
 		}
 		elemMode = true
